@@ -8,8 +8,10 @@ import machine
 from props import c03
 
 ID = "C04"
-LEAN_MODULES = ["QProps.C04"]
+LEAN_MODULES = ["QProps.C04", "QProps.C04h"]
 THEOREMS = [
+    "MC.energy_history",
+    "MC.energy_history_grand",
     "MC.getEnergy_spec",
     "MC.getEnergy_free",
     "MC.stateless_always_fresh",
